@@ -412,6 +412,20 @@ pub const PLAIN_NAMES: [&str; 6] = ["a", "b", "c", "d", "e", "f"];
 /// (NFD accents, Indic / Thai vowel signs), connector punctuation, zero-width joiners, letter
 /// numbers. `\\w` covers all of them, so each is ONE identifier ("cafe" + U+0301 is not "cafe").
 pub const MARK_NAMES: [&str; 12] = ["cafe\u{301}", "cafe", "हिंदी", "a\u{203f}b", "a\u{200d}b", "Ⅷ", "x\u{300}y", "กิ", "p'", "p''", "p'q", "''p"];
+/// Long names that look alike: equal length and a common prefix of 24 .. 256 bytes (differing in
+/// the last character), differing only in the FIRST character or only in the middle, and anagrams
+/// of one another. Each is a different identifier.
+pub const LOOKALIKE_NAMES: [&str; 12] = ["temperature_sensor_reading_1", "temperature_sensor_reading_2", "nnnnnnnnnnnnnnnnnnnnnnnnnnnnnnnnnnnnnnnnnnnnnnnnnnnnnnnnnnnnnnnna", "nnnnnnnnnnnnnnnnnnnnnnnnnnnnnnnnnnnnnnnnnnnnnnnnnnnnnnnnnnnnnnnnb", "xtemperature_sensor_reading_1", "ytemperature_sensor_reading_1", "prefix_qqqqqqqqqqqqqqqqqqqq_A_rrrrrrrrrrrrrrrrrrrr", "prefix_qqqqqqqqqqqqqqqqqqqq_B_rrrrrrrrrrrrrrrrrrrr", "listen_to_the_silent_night_0", "silent_to_the_listen_night_0", "mmmmmmmmmmmmmmmmmmmmmmmmmmmmmmmmmmmmmmmmmmmmmmmmmmmmmmmmmmmmmmmmmmmmmmmmmmmmmmmmmmmmmmmmmmmmmmmmmmmmmmmmmmmmmmmmmmmmmmmmmmmmmmmmmmmmmmmmmmmmmmmmmmmmmmmmmmmmmmmmmmmmmmmmmmmmmmmmmmmmmmmmmmmmmmmmmmmmmmmmmmmmmmmmmmmmmmmmmmmmmmmmmmmmmmmmmmmmmmmmmmmmmmmmmmmmmmmma", "mmmmmmmmmmmmmmmmmmmmmmmmmmmmmmmmmmmmmmmmmmmmmmmmmmmmmmmmmmmmmmmmmmmmmmmmmmmmmmmmmmmmmmmmmmmmmmmmmmmmmmmmmmmmmmmmmmmmmmmmmmmmmmmmmmmmmmmmmmmmmmmmmmmmmmmmmmmmmmmmmmmmmmmmmmmmmmmmmmmmmmmmmmmmmmmmmmmmmmmmmmmmmmmmmmmmmmmmmmmmmmmmmmmmmmmmmmmmmmmmmmmmmmmmmmmmmmmmb"];
+
+/// the rarely used pools, alternating
+pub fn rare_pool(k: u64) -> &'static [&'static str] {
+    if k % 2 == 0 {
+        &MARK_NAMES
+    } else {
+        &LOOKALIKE_NAMES
+    }
+}
+
 pub const FANCY_NAMES: [&str; 12] = ["a", "b'", "_x", "x1", "hello_world", "é", "λx", "中", "X", "a1b2", "'q", "longer_name_9"];
 
 /// Every spelling of every token kind (for soups / mutations).
